@@ -30,6 +30,9 @@ TRUSTED_BASE = [
 ASSUMPTIONS = [
     "vocabulary: the routes listed in harness/src/mroutes.rs, mixed with the fluent / lin_* vocabulary of C10; operands of the boolean routes "
     "and reification variables are 0/1 variables (class nonbool_arg otherwise)",
+    "malformed arguments (repaired tree): lin_*_reif / bool_lin_*_reif with |coeffs| != |vars| mean `b = 0` (e45322d, route_sem); "
+    "Model::table with a tuple of the wrong arity and lin_* / bool_lin_* with |coeffs| != |vars| record a validation error that every "
+    "solving call returns (e2596cd, 596c327); min / max of an empty list return Err from the call",
     "no time or memory limit fires (C15)",
 ]
 RULE = ("rlower: declarations + calls through the real public API; the normalised dump of Model::verif_lower (domains of every variable, "
